@@ -88,6 +88,7 @@ type frame struct {
 	sig      *types.Signature
 	name     string
 	labelFor map[ast.Stmt]string
+	ghosts   map[string]Value
 }
 
 type VC struct {
@@ -118,6 +119,7 @@ type VC struct {
 	gassumes   []string
 	axiomsUsed []string
 	dispatched map[string]bool
+	anchorHits map[string]int
 }
 
 func newVC(w *World, fi *FuncInfo, fc *FuncContract) *VC {
@@ -250,8 +252,12 @@ func (vc *VC) rangeFacts(x Term, t types.Type, depth int) Term {
 		if si == nil || si.Kind != "map" {
 			return tBool(true)
 		}
+		ks := vc.ss.sortOf(u.Key())
+		// a Go map is a finite partial function: the cardinality is consistent
+		// with the key set (no key without a positive count; nil map is empty)
 		return tAnd(Term{fmt.Sprintf("(and (>= (card.%s %s) 0) (<= (card.%s %s) 4611686018427387904))", x.Sort, x.S, x.Sort, x.S), SBool, nil},
-			Term{fmt.Sprintf("(=> (isnil.%s %s) (= (card.%s %s) 0))", x.Sort, x.S, x.Sort, x.S), SBool, nil})
+			Term{fmt.Sprintf("(=> (isnil.%s %s) (= (card.%s %s) 0))", x.Sort, x.S, x.Sort, x.S), SBool, nil},
+			Term{fmt.Sprintf("(=> (= (card.%s %s) 0) (= (has.%s %s) ((as const (Array %s Bool)) false)))", x.Sort, x.S, x.Sort, x.S, ks), SBool, nil})
 	case *types.Pointer:
 		si := vc.ss.info[x.Sort]
 		if si == nil || si.Kind != "ptr" {
